@@ -130,6 +130,28 @@ def _run_grain(desc):
                                                                              "m": [m1, m2], "ref_orientation": u0i, "seed": seed_of()},
                                      {"diff": float(np.abs(Es[m1] - Es[m2]).max()), "delta": float(delta)})
             sh.outcomes.add((si > 0, ri > 0, u0i > 0))
+            # histories on ONE DeformationGradientTensor object: every ordered pair (thorough: triple) of (frame, m) requests;
+            # each answer must not depend on what was asked before (cached decompositions must not leak between frames)
+            if si in (5, 7, 8) and ri in (1, 3):
+                from ImageD11 import finite_strain as fs
+                reqs = [(fr, m) for fr in ("ref", "lab") for m in MS]
+                depth = 2 if tier == "quick" else 3
+                for seq in itertools.product(range(len(reqs)), repeat=depth):
+                    Fobj = fs.DeformationGradientTensor(ubi, ub0)
+                    for q in seq:
+                        fr, m = reqs[q]
+                        E = Fobj.finite_strain_ref(m) if fr == "ref" else Fobj.finite_strain_lab(m)
+                        want = seth_hill(S, m)
+                        if fr == "lab":
+                            want = np.dot(Rm, np.dot(want, Rm.T))
+                        if np.abs(E - want).max() > (1e-10 if abs(m) < 2 else 1e-9):
+                            sh.violation("DeformationGradientTensor:answer-depends-on-earlier-requests",
+                                         {"kind": "grain", "cell": cell, "ref_orientation": u0i, "stretch": si, "rotation": ri, "m": m,
+                                          "history": [list(reqs[x]) for x in seq], "seed": seed_of()},
+                                         {"got": E, "expected": want})
+                            break
+                    sh.evaluations += 1
+                    sh.nontrivial += 1
     sh.sample(case, limit=1)
     return sh
 
